@@ -70,14 +70,24 @@ def _search(pid, oracles, theorems, text, technique):
         "design_ref": "DESIGN.md section 7, " + pid,
     }
 
-_search("C04", ["c04"], [], "", "")
+_search("C04", ["c04"], [("GdslModel.Props.C04", "G.Bfs." + t) for t in ["path_sound", "path_minimal", "path_complete", "path_iff", "search_iff", "fuel_enough"]],
+        "Machine-checked proof (Lean 4) about the model of the breadth-first loops: search_path returns a walk of existing accepted edges (with their values) from the root to the target, no walk with fewer edges exists (ghost depth function + frontier lemma), None only if the target is unreachable in the accepted graph (iff), search agrees, and fuel > |nodes| never runs out; for all multigraphs, insertion orders, filters and sizes. The model is tied to all four flavours by exact correspondence on every connect sequence on <=3 nodes x roots x targets x reject sets and random graphs up to 40 nodes; the statement is also evaluated on the real paths by an independent shortest-distance oracle.",
+        "Lean 4 proof (closure-modulo-queue invariant, ghost BFS depth, discovery-tree backtracking) + model/implementation correspondence + shortest-path oracle")
 _search("C05", ["c05"], [("GdslModel.Props.C05", "G.Dfs." + t) for t in ["path_sound", "path_simple", "path_complete", "path_iff", "search_iff", "fuel_enough"]],
         "Machine-checked proof (Lean 4) about the model of the recursive depth-first loops: search_path returns a walk of existing accepted edges from the root to the target that repeats no node, returns None only if the target is unreachable in the accepted graph (iff), search agrees, and fuel > |nodes| never runs out; for all graphs, filters and sizes. The model (order of exec/visited/push/target test, backtrack_edge_tree) is tied to all four flavours by exact correspondence on every connect sequence on <=3 nodes x roots x targets x reject sets and random graphs up to 40 nodes; the statement is also evaluated on the real paths by an independent reachability/simple-path oracle.",
         "Lean 4 proof (closure invariant, discovery-tree backtracking) + model/implementation correspondence + path oracle")
-_search("C06", ["c06"], [], "", "")
-_search("C07", ["c07"], [], "", "")
-_search("C08", ["c08"], [], "", "")
-_search("C09", ["c09"], [], "", "")
+_search("C06", ["c06"], [("GdslModel.Props.C06", "G." + t) for t in ["Heap.push_heap", "Heap.pop_max", "Heap.pop_none", "Pfs.log_erases", "Pfs.pop_minimal", "Pfs.pending_are_discovered", "Pfs.path_sound", "Pfs.path_complete", "Pfs.search_iff", "Pfs.fuel_enough", "NodeOrd.eq_key", "NodeOrd.cmp_value"]],
+        "Machine-checked proof (Lean 4): the transcription of std's BinaryHeap (push = sift_up, pop = swap-last + sift_down_to_bottom + sift_up, right child on ties) keeps the heap order and pops a maximal element; along the priority-first loop (ghost log proved to erase to the executed loop) every expansion pops an element that no pending (discovered, unexpanded) node beats, for min() (Reverse) and max(); paths are sound, None iff unreachable, search returns the target; comparison operators are the value order, equality is key equality. Tie-breaking of the real heap is matched exactly by the correspondence (all value assignments over {0,1,2} on small graphs, random beyond), and the discipline is re-derived from the callback trace of the real code by an oracle.",
+        "Lean 4 proof (binary-heap invariants, ghost-log loop invariant) + model/implementation correspondence incl. heap tie order + trace-discipline oracle")
+_search("C07", ["c07"], [("GdslModel.Props.C07", "G." + t) for t in ["Trace.search_sees_all", "Trace.order_sees_all", "Trace.true_endpoints", "Trace.order_true_endpoints", "Filter.excluded", "Filter.order_excluded", "Filter.as_subgraph", "Filter.order_as_subgraph"]],
+        "Machine-checked proof (Lean 4) for all six traversal kinds of the model: without target and filter the sequence of edges handed to the closure is a permutation of the edges (with multiplicity) leaving the nodes reachable from the root; every traced edge is an element of its source's iterated list with its stored value; the edge tree (hence every path, cycle, ordering) contains accepted edges only; a filtered run equals the unfiltered run on the accepted subgraph. Tied to the four flavours by exact correspondence of the callback traces (for_each and every reject set on small graphs) and a multiset oracle on the real traces.",
+        "Lean 4 proof (trace/loop invariants, filter-as-subgraph simulation) + model/implementation correspondence of callback traces + multiset oracle")
+_search("C08", ["c08"], [("GdslModel.Props.C08", "G." + t) for t in ["Transpose.eq_swap", "Transpose.run_eq_swap", "Transpose.swap_reverses", "Forward.ignores_inbound"]],
+        "Machine-checked proof (Lean 4) that in the model a transposed run of any of the 30 configurations is the plain run on the store with the two lists of every node exchanged, that under the mirror invariant this store is the edge-reversed graph, and that plain runs depend on outgoing lists only. The substantive tie - that the real code selects exactly these lists for every {bfs,dfs,pfs-min,pfs-max,pre,post} x {search,path,cycle,nodes,edges} and reports Edge(v,u,e) - is the exact correspondence on digraph/sync_digraph plus a metamorphic oracle that reruns every request on a freshly built edge-reversed graph and demands identical output.",
+        "Lean 4 proof (transposition = list swap) + model/implementation correspondence over all 30 configurations + reversed-graph metamorphic oracle")
+_search("C09", ["c09"], [("GdslModel.Props.C09", "G.Cycle." + t) for t in ["sound", "complete", "simple", "bfs_minimal"]],
+        "Machine-checked proof (Lean 4) for bfs, dfs, pfs-min and pfs-max of the model: search_cycle returns a non-empty walk of existing accepted edges from the root to the root exactly when one exists, its edge targets are pairwise distinct (no intermediate node and no edge twice), and the breadth-first one is a shortest such cycle; the same theorems instantiated with out++inn are the undirected statements. Tied to the four flavours by exact correspondence (self-loops at the root and elsewhere, parallel edges, reject sets) and a cycle oracle on the real results.",
+        "Lean 4 proof (shared run-level soundness/completeness lemmas in cycle mode, repaired backtrack) + model/implementation correspondence + cycle oracle")
 _search("C10", ["c10"], [("GdslModel.Props.C10", "G.Order." + t) for t in ["nodes_exactly_reach", "pre_is_dfs_discovery", "post_is_dfs_finishing", "post_edge_property", "edges_one_per_node", "fuel_enough"]],
         "Machine-checked proof (Lean 4) that the model's preorder/postorder list exactly the nodes reachable through accepted edges once (root first/last), are the discovery resp. finishing sequence of a run of the non-deterministic depth-first relation Dfs, satisfy the per-edge postorder property, and that search_edges has one existing accepted entering edge per non-root node in the same order; for all graphs and filters. Model tied to the four flavours by exact correspondence (enumerated graphs <=3 nodes, random to 40) and an exact 'some DFS produces this order' oracle on the real output.",
         "Lean 4 proof (ghost stack/finished invariant; refinement to a non-deterministic DFS relation) + model/implementation correspondence + exact DFS-order oracle")
